@@ -46,8 +46,8 @@ type c15lpOp struct {
 
 type c15lpCase struct {
 	Clients int       `json:"clients"`
-	Initial int       `json:"initial"`   // entities created before the clients start
-	InitPos []int     `json:"init_pos"`  // per client: how many of the initial versions it already has
+	Initial int       `json:"initial"`  // entities created before the clients start
+	InitPos []int     `json:"init_pos"` // per client: how many of the initial versions it already has
 	Ops     []c15lpOp `json:"ops"`
 }
 
@@ -76,8 +76,8 @@ type c15lpRun struct {
 	db      *DBV2
 	h       *Handler
 	clients []*c15lpClient
-	ents    []vpmetaEvent           // latest event per entity, creation order
-	byVer   map[int64]vpmetaEvent   // every committed version
+	ents    []vpmetaEvent         // latest event per entity, creation order
+	byVer   map[int64]vpmetaEvent // every committed version
 	maxVer  int64
 	stats   map[string]int
 	nsaves  int
